@@ -266,3 +266,22 @@ fn store_agrees_with_reference_model() {
     for h in 0..n { one_history(seed.wrapping_mul(1000003).wrapping_add(h as u64 * 7919 + 1), steps); }
     println!("vx_store_model: {} histories x {} steps held", n, steps);
 }
+
+#[test]
+fn head_retention_is_per_context_even_when_the_collector_is_busy() {
+    // C08: a head:N check concerns exactly one (context, topic); checks of the same topic NAME in another context are separate
+    let d = tempfile::tempdir().unwrap();
+    let rt = tokio::runtime::Builder::new_current_thread().enable_all().build().unwrap();
+    let store = Store::new(d.path().join("s"));
+    let a = store.append(Frame::builder("xs.context", ZERO_CONTEXT).build()).unwrap().id;
+    let b = store.append(Frame::builder("xs.context", ZERO_CONTEXT).build()).unwrap().id;
+    // keep the collector busy: 300 frames, then one head:1 append that trims them all
+    for _ in 0..300 { store.append(Frame::builder("bulk", ZERO_CONTEXT).build()).unwrap(); }
+    store.append(Frame::builder("bulk", ZERO_CONTEXT).ttl(TTL::Head(1)).build()).unwrap();
+    let in_a: Vec<Scru128Id> = (0..3).map(|_| store.append(Frame::builder("status", a).ttl(TTL::Head(5)).build()).unwrap().id).collect();
+    let in_b = store.append(Frame::builder("status", b).ttl(TTL::Head(1)).build()).unwrap().id;
+    rt.block_on(store.wait_for_gc());
+    assert_eq!(store.read_sync(None, None, Some(a)).map(|f| f.id).collect::<Vec<_>>(), in_a, "C08/C06: context A's head:5 topic was trimmed by another context's check");
+    assert_eq!(store.read_sync(None, None, Some(b)).map(|f| f.id).collect::<Vec<_>>(), vec![in_b]);
+    assert_eq!(store.read_sync(None, None, Some(ZERO_CONTEXT)).filter(|f| f.topic == "bulk").count(), 1, "C09: head:1 keeps exactly the newest");
+}
